@@ -745,8 +745,14 @@ impl Context {
                         let name = self.rust_name(f.did);
 
                         if let Some(v) = v {
-                            let (mut v, is_const) =
+                            let (mut v, mut is_const) =
                                 self.lit_into_ty(v, &self.codegen_item_ty(f.ty.kind.clone()))?;
+
+                            // a field that refers back to its own struct is stored in a Box
+                            if self.with_adjust(f.did, |adj| adj.is_some_and(|a| a.boxed())) {
+                                v = format!("::std::boxed::Box::new({v})").into();
+                                is_const = false;
+                            }
 
                             if f.is_optional() {
                                 v = format!("Some({v})").into()
